@@ -28,7 +28,7 @@ type Case struct {
 	Run      string `json:"run"`      // ok | error | panic
 	Shutdown string `json:"shutdown"` // absent | ok | error | panic
 	Cleanup  string `json:"cleanup"`  // absent | ok | error | panic
-	Handler  string `json:"handler"`  // absent | ok | panic
+	Handler  string `json:"handler"`  // absent | ok | waits (calls Wait on its own service) | panic
 	Ending   string `json:"ending"`   // self | self-gated | close | cancel | cancel-before-start
 	Starters int    `json:"starters"`
 	Closers  int    `json:"closers"`
@@ -40,10 +40,13 @@ type Case struct {
 	// SideWaiters wait through Service.Worker() with a context of their
 	// own, which is cancelled while the service is still running: they
 	// give up, the other waiters go on waiting
-	SideWaiters int    `json:"side_waiters,omitempty"`
-	Hook        string `json:"hook"` // "" | launched | checked
-	Yields      []int  `json:"yields"`
-	Procs       int    `json:"gomaxprocs"`
+	SideWaiters int `json:"side_waiters,omitempty"`
+	// PreClose: Close is called once before anybody calls Start ("If the
+	// service hasn't started ... this has no effect")
+	PreClose bool   `json:"close_before_start,omitempty"`
+	Hook     string `json:"hook"` // "" | launched | checked
+	Yields   []int  `json:"yields"`
+	Procs    int    `json:"gomaxprocs"`
 }
 
 type event struct {
@@ -179,6 +182,20 @@ func runCase(c *Case) (string, string) {
 			if c.Handler == "panic" {
 				panic("handler panics")
 			}
+			if c.Handler == "waits" {
+				// the handler is one more caller of Wait; Run, Shutdown and
+				// Cleanup have returned, so it does not block
+				waited := make(chan error, 1)
+				go func() { waited <- s.Wait() }()
+				select {
+				case werr := <-waited:
+					if werr == nil {
+						w.log("handler.wait-nil")
+					}
+				case <-time.After(limit):
+					w.log("handler.wait-blocks")
+				}
+			}
 		})
 	}
 
@@ -216,6 +233,9 @@ func runCase(c *Case) (string, string) {
 		}()
 	}
 
+	if c.PreClose {
+		s.Close()
+	}
 	if c.Ending == "cancel-before-start" {
 		w.markEnded()
 		cancelParent()
@@ -400,6 +420,9 @@ func runCase(c *Case) (string, string) {
 		if k, _ := w.count("handler.too-early"); k > 0 {
 			return "handler", "the ErrorHandler ran before Cleanup had returned"
 		}
+		if k, _ := w.count("handler.wait-blocks"); k > 0 {
+			return "handler-wait", "Wait called from inside the ErrorHandler (after Run, Shutdown and Cleanup have returned) does not return"
+		}
 		if k, _ := w.count("handler.nil-argument"); k > 0 {
 			return "handler", "the ErrorHandler was called with a nil error"
 		}
@@ -417,7 +440,7 @@ func genCase(t *rapid.T) *Case {
 		Run:          rapid.SampledFrom([]string{"ok", "ok", "error", "panic"}).Draw(t, "run"),
 		Shutdown:     oc.Draw(t, "shutdown"),
 		Cleanup:      oc.Draw(t, "cleanup"),
-		Handler:      rapid.SampledFrom([]string{"absent", "ok", "ok", "panic"}).Draw(t, "handler"),
+		Handler:      rapid.SampledFrom([]string{"absent", "ok", "ok", "waits", "panic"}).Draw(t, "handler"),
 		Ending:       rapid.SampledFrom([]string{"self", "self-gated", "close", "cancel", "deadline", "cancel-before-start"}).Draw(t, "ending"),
 		Starters:     rapid.IntRange(1, 6).Draw(t, "starters"),
 		Closers:      rapid.IntRange(0, 3).Draw(t, "closers"),
@@ -426,6 +449,7 @@ func genCase(t *rapid.T) *Case {
 		Yields:       rapid.SliceOfN(rapid.IntRange(0, 4), 1, 6).Draw(t, "yields"),
 		Procs:        rapid.SampledFrom([]int{1, 2, 4, 16}).Draw(t, "gomaxprocs"),
 	}
+	c.PreClose = rapid.IntRange(0, 3).Draw(t, "preClose") == 0
 	if rapid.IntRange(0, 2).Draw(t, "sideWaiters") == 0 {
 		c.SideWaiters = rapid.IntRange(1, 2).Draw(t, "sideWaiterCount")
 	}
